@@ -1,7 +1,9 @@
 """C08 -- pub/sub delivers every item once, in order, and ends cleanly.
 
 Model: coq/theories/PubSub/Model.v; theorems: Props/C08.v.
-Tie: (i) atomicity check -- every publish/aclose/end/close coroutine is driven
+Tie: (o) translate/pubsub_funs.py regenerates Gen/PubSubFuns.v (the method bodies as terms of
+PubSub/Syntax.v) and PubSub/Tie.v, TieBroker.v prove that interpreting them IS the model,
+operation by operation (C08_tie_* in Props/C08.v); (i) atomicity check -- every publish/aclose/end/close coroutine is driven
 with send(None) and must finish without suspending; (ii) the real PubSubItem /
 PubSub are driven with generated operation sequences and their outputs are
 compared with the model's (evaluated inside Coq by vm_compute).
@@ -17,8 +19,13 @@ from pathlib import Path
 from .. import common as C
 from ..common import Corr, Violation, cbool, clist, cnat, cz
 
+TRANSLATORS = ['pubsub_funs']     # Gen/PubSubFuns.v: the method bodies of PubSubItem / PubSub, regenerated on every run
+
 TRUSTED_BASE = [
     'correspondence harness harness/props/c08.py (op-sequence generator, canonicalisation of outputs)',
+    'translator translate/pubsub_funs.py (Python ast -> the syntax of PubSub/Syntax.v, fail-closed) and the meaning '
+    'PubSub/Interp.v + PubSub/TieBroker.v give that syntax (truthiness, `is`, list copies vs live lists, generator '
+    'suspension/resumption, try/finally on aclose, defaultdict lookup/pop/popitem)',
     'modelled, not verified: asyncio.Queue is FIFO and unbounded put never suspends (the latter is checked per call)',
 ]
 ASSUMPTIONS = [
